@@ -14,7 +14,7 @@ PROP = "C18"
 def translate():
     from translator import registry
 
-    return registry.generate("Threading", "Wiring", "Transitions")
+    return registry.generate("Threading", "Wiring", "Transitions", "Globals")
 
 
 def launch_history(seed, order_seed):
